@@ -228,6 +228,13 @@ func init() {
 	registerRule(&RuleDef{ID: "GEN-ENUM", Min: 2, Doc: "enum alias names only with enum types on", Run: ruleGENENUM})
 	registerRule(&RuleDef{ID: "L-ATOM", Min: 8, Doc: "no value read from a guarded field is used in a later critical section of the same lock (split critical section / check-then-act)", Run: ruleLATOM("client", "cache", "server", "database/inmemory")})
 	add("C05", "L-ATOM")
+	registerRule(&RuleDef{ID: "K-WIRETYPE", Min: 12, Doc: "encoder and decoder of a codec pair declare the same Go type for the same wire member", Run: ruleKWIRETYPE})
+	add("C12", "K-WIRETYPE")
+	registerRule(&RuleDef{ID: "K-REGEX", Min: 1, Doc: "validity regexps of package ovsdb are anchored at both ends", Run: ruleKREGEX})
+	add("C15", "K-REGEX")
+	add("C12", "K-REGEX")
+	registerRule(&RuleDef{ID: "T-PROBE", Min: 1, Doc: "the inactivity probe's timeout is armed again on every turn of its loop", Run: ruleTPROBE})
+	add("C16", "T-PROBE")
 	registerRule(&RuleDef{ID: "T-DANGLE", Min: 2, Doc: "the dangling strong reference test is independent of root-set membership", Run: ruleTDANGLE})
 	add("C04", "T-DANGLE")
 	add("C18", "L-ATOM")
